@@ -7,7 +7,7 @@ import random
 from .. import core, gen, sx, textbook as tb
 
 THEOREMS = ['C06.eFresh_judgement_sound', 'C06.sFresh_judgement_sound', 'C06.positive_negative_judgement_sound',
-            'C06.syntactic_instantiation_admissible', 'C06.instantiation_semantics', 'C06.eFresh_of_instance',
+            'C06.rust_judgements_are_the_model', 'C06.rust_e_fresh_sound', 'C06.rust_polarity_sound', 'C06.syntactic_instantiation_admissible', 'C06.instantiation_semantics', 'C06.eFresh_of_instance',
             'C06.sFresh_of_instance', 'C06.positive_of_instance', 'C06.negative_of_instance',
             'C06.python_evar_is_free_is_judgement_of_expansion']
 NOTATION_THEOREMS = ['NPat.evarIsFreeF_expand']
